@@ -36,7 +36,6 @@ from numpy import log, exp, pi
 from types import FunctionType, MethodType
 
 from . import stat
-from .numpy_util import arrscl
 
 LOWVAL = -9999.0e47
 
@@ -1054,10 +1053,10 @@ def randind(nmax, nrand, dtype=None):
             dtype = "u4"
 
     rnd = numpy.random.random(nrand)
+    # floor(u*nmax) is uniform on [0, nmax); the minimum guards against rounding
+    # up to nmax for very large nmax
+    ind = numpy.minimum(rnd * nmax, nmax - 1).astype(dtype)
     if nrand == 1:
-        ind = int(rnd * nmax)
-    else:
-        ind = numpy.zeros(nrand, dtype=dtype)
-        ind[:] = arrscl(rnd, 0, nmax - 1, arrmin=0.0, arrmax=1.0)
+        ind = int(ind[0])
 
     return ind
